@@ -467,6 +467,97 @@ SPECS += [
                         lambda n: n.value.func.value), ["R15.12"]),
 ]
 
+
+
+def _expr(text: str):
+    return lambda n: ast.parse(text, mode="eval").body
+
+
+def _is(text: str):
+    return lambda n: isinstance(n, ast.AST) and not isinstance(n, (ast.stmt, ast.Module)) and ast.unparse(n) == text
+
+
+def _const_is(v):
+    return lambda n: isinstance(n, ast.Constant) and n.value == v and type(n.value) is type(v)
+
+
+def _swap_cmp(op_from, op_to, containing: str):
+    def pred(n):
+        return isinstance(n, ast.Compare) and len(n.ops) == 1 and isinstance(n.ops[0], op_from) and containing in ast.unparse(n)
+
+    def make(n):
+        return ast.Compare(left=n.left, ops=[op_to()], comparators=n.comparators)
+    return pred, make
+
+
+def _hash_before_string_test(tree):
+    f = find_func(tree, "_CustomGenerator._analyze_line")
+    loops = [x for x in ast.walk(f) if isinstance(x, ast.For)] if f is not None else []
+    if not loops:
+        return False
+    body = loops[0].body
+    hit = [s_ for s_ in body if isinstance(s_, ast.If) and ast.unparse(s_.test) == "token == '#'"]
+    anchor = [s_ for s_ in body if isinstance(s_, ast.If) and ast.unparse(s_.test) == "self.in_string"]
+    if not hit or not anchor:
+        return False
+    body.remove(hit[0])
+    body.insert(body.index(anchor[0]), hit[0])
+    return True
+
+
+# round 6, wave 2
+SPECS += [
+    ("C17", "setter-closed-at-first-physical-line", "rope/refactor/encapsulate_field.py",
+     replace_expr_where("_FindChangesForModule.get_changed_module", _is("self.lines.get_line_end(end_line)"), _expr("self.lines.get_line_end(start_line)")), ["R17.8"]),
+    ("C20", "comment-test-on-raw-line", "rope/contrib/fixsyntax.py",
+     replace_expr_where("_Commenter._find_matching_deindent", _is("line.strip().startswith('#')"), _expr("line.startswith('#')")), ["R20.9"]),
+    ("C20", "inserted-line-booked-without-newline", "rope/contrib/fixsyntax.py",
+     replace_expr_where("_Commenter._insert", _is("len(line) + 1"), _expr("len(line)")), ["R20.10"]),
+    ("C20", "ledger-includes-own-line", "rope/contrib/fixsyntax.py",
+     replace_expr_where("_Commenter.transferred_offset", _is("self.diffs[:lineno]"), _expr("self.diffs[:lineno + 1]")), ["R20.10"]),
+    ("C16", "codec-name-without-underscore", "rope/base/fscommands.py",
+     replace_expr_where("_find_coding", _const_is(b"-_."), const(b"-.")), ["R16.9"]),
+    ("C16", "cookie-delimiter-colon-only", "rope/base/fscommands.py",
+     replace_expr_where("_find_coding", _const_is(b"=:"), const(b":")), ["R16.9"]),
+    ("C16", "cookie-only-on-first-line", "rope/base/fscommands.py",
+     replace_expr_where("read_str_coding", lambda n: isinstance(n, ast.Slice) and isinstance(n.upper, ast.Constant) and n.upper.value == 2,
+                        lambda n: ast.Slice(lower=None, upper=ast.Constant(value=1), step=None)), ["R16.10"]),
+    ("C16", "cookie-below-code-honoured", "rope/base/fscommands.py",
+     remove_stmt_where("read_str_coding", lambda s: isinstance(s, ast.If) and "BLANK_LINE_PATTERN" in ast.unparse(s.test)), ["R16.10"]),
+    ("C16", "cr-files-written-with-lf", "rope/base/fscommands.py",
+     replace_expr_where("unicode_to_file_data", _is("newlines != '\\n'"), _expr("newlines == '\\r\\n'")), ["R16.2"]),
+    ("C15", "as-pattern-not-traversed", "rope/base/pyobjectsdef.py",
+     remove_stmt_where("_ScopeVisitor._MatchAs", lambda s: isinstance(s, ast.If) and "node.pattern" in ast.unparse(s.test)), ["R15.13"]),
+    ("C11", "redo-list-loaded-reversed", "rope/base/history.py",
+     replace_expr_where("History._load_history", _is("self._redo_list.append(to_change(data))"), _expr("self._redo_list.insert(0, to_change(data))")), ["R11.9"]),
+    ("C12", "undo-list-loaded-reversed", "rope/base/history.py",
+     replace_expr_where("History._load_history", _is("self._undo_list.append(to_change(data))"), _expr("self._undo_list.insert(0, to_change(data))")), ["R12.12"]),
+    ("C11", "redo-picks-oldest", "rope/base/history.py",
+     replace_expr_where("History.redo", _is("self.redo_list[-1]"), _expr("self.redo_list[0]")), ["R11.10"]),
+    ("C11", "undo-picks-oldest", "rope/base/history.py",
+     replace_expr_where("History.undo", _is("self.undo_list[-1]"), _expr("self.undo_list[0]")), ["R11.10"]),
+    ("C19", "goal-indented-like-match-end", "rope/refactor/restructure.py",
+     replace_expr_where("_ChangeComputer._get_matched_text", _is("match.get_region()[0]"), _expr("match.get_region()[1]")), ["R19.9"]),
+    ("C13", "indicator-ordered", "rope/base/resourceobserver.py",
+     replace_expr_where("FilteredResourceObserver._is_changed", *_swap_cmp(ast.NotEq, ast.Lt, "get_indicator")), ["R13.10"]),
+    ("C13", "indicator-mtime-only", "rope/base/resourceobserver.py",
+     replace_expr_where("ChangeIndicator.get_indicator", _is("(os.path.getmtime(path), os.path.getsize(path))"), _expr("(os.path.getmtime(path),)")), ["R13.10"]),
+    ("C13", "reindex-keeps-old-rows", "rope/contrib/autoimport/sqlite.py",
+     remove_stmt_where("AutoImport.update_resource", stmt_is("self._del_if_exist(")), ["R13.11"]),
+    ("C13", "like-underscore-not-escaped", "rope/contrib/autoimport/sqlite.py",
+     replace_expr_where("AutoImport._del_package_if_exist", _const_is("\\%_"), const("\\%")), ["R13.11"]),
+    ("C14", "hash-in-string-ends-line-scan", "rope/base/codeanalyze.py", _hash_before_string_test, ["R14.13"]),
+    ("C14", "long-string-lookahead-one-quote", "rope/base/codeanalyze.py",
+     replace_expr_where("get_string_pattern_with_prefix", lambda n: isinstance(n, ast.Constant) and isinstance(n.value, str) and '(?!"")' in n.value,
+                        lambda n: ast.Constant(value=n.value.replace('(?!"")', '(?!")'))), ["R14.11"]),
+    ("C14", "short-string-spans-lines", "rope/base/codeanalyze.py",
+     replace_expr_where("get_string_pattern_with_prefix", lambda n: isinstance(n, ast.Constant) and isinstance(n.value, str) and n.value.startswith('"(') ,
+                        lambda n: ast.Constant(value=n.value.replace('[^"\\\\\\n]', '[^"\\\\]'))), ["R14.11"]),
+    ("C14", "paren-scanner-without-braces", "rope/base/simplify.py",
+     replace_expr_where("", lambda n: isinstance(n, ast.Constant) and isinstance(n.value, str) and n.value.startswith("[\\({"),
+                        lambda n: ast.Constant(value=n.value.replace("{", "").replace("}", ""))), ["R14.12"]),
+]
+
 SPECS = [s for s in SPECS if s[1] != "tab-to-four-spaces"]
 
 
